@@ -124,8 +124,11 @@ def step (s : St) (ws : List String) : String × St :=
         (treeOut es, s)
     else ("> bad-op", s)
   | ["setblob", "cpu.0.PRSTATUS", h] => ("> set ok", { s with cpu := setBlob s.cpu (unhex h) })
-  | ["get", "cpu.0.PRSTATUS"] => ("> get ok blob:" ++ hex s.cpu.blob, s)
+  | ["clear", "cpu.0.PRSTATUS"] => ("> clear ok", { s with cpu := clearBlob s.cpu })
+  | ["get", "cpu.0.PRSTATUS"] =>
+    (if s.cpu.blobSet then "> get ok blob:" ++ hex s.cpu.blob else "> get nodata -", s)
   | ["poke", "cpu.0.PRSTATUS", off, h] =>
+    if !s.cpu.blobSet then ("> poke nodata", s) else
     (match poke s.cpu off.toNat! (unhex h) with
      | some c => ("> poke ok", { s with cpu := c })
      | none => ("> poke range", s))
